@@ -3,9 +3,9 @@ Require Import QtlVerif.FatalDefs QtlVerif.SrcFatal.
 Require Extraction.
 Require Import ExtrOcamlBasic.
 (* the model with the configuration read from the source and Qt's own buffering policy *)
-Definition run_src_fatal t msgs r := ids_of (survivors (run_fatal src_fatal_cfg qfile_policy t msgs r)).
-Definition run_src_kill t msgs := ids_of (survivors (log_all src_fatal_cfg qfile_policy t msgs)).
+Definition run_src_fatal rej t msgs r := ids_of (survivors (run_fatal src_fatal_cfg qfile_policy rej t msgs r)).
+Definition run_src_kill rej t msgs := ids_of (survivors (log_all src_fatal_cfg qfile_policy rej t msgs)).
 (* the specification, independent of the source: what must be in every file after qFatal(r) *)
-Definition expected_ids t msgs r := ids_of (expected t (msgs ++ (Fatal, r) :: nil)).
+Definition expected_ids rej t msgs r := ids_of (expected rej t (msgs ++ (Fatal, r) :: nil)).
 Definition src_cfg_good := cfg_goodb src_fatal_cfg.
 Extraction "fatal_model.ml" run_src_fatal run_src_kill expected_ids prop_c11_b fresh src_cfg_good flush_on_fatal.
